@@ -2232,6 +2232,34 @@ def lemmas():
     return out
 
 
+def native_scope(repo, tier):
+    """BOUNDED stand-in (DESIGN 2.8) for the functions that are not (or only boundedly) under contract -- _parse_header,
+    _parse_main_header, _parse_streams_info, _parse_files_info, SevenZipFile, lzma glue: the native differential scope of
+    replay/C10.py (reference writers x layouts x member sets: read_archive == direct extraction per member; SevenZipReader
+    lists / extracts every member's own bytes; byte readers == format spec) is run on the real code.  A mismatch is a concrete
+    failing input (violation); finding nothing proves nothing (`bounded-ok`, never counted as discharged)."""
+    import json
+    import os
+    import subprocess
+    oid = "C10/replay::native-scope/bounded#read_archive-equals-direct-extraction-per-member.BOUNDED"
+    req = {"property": "C10", "obligation": oid, "repo": repo}
+    try:
+        p = subprocess.run(["/venv/bin/python", os.path.join(os.path.dirname(os.path.dirname(os.path.abspath(__file__))), "replay", "run.py")],
+                           input=json.dumps(req), capture_output=True, text=True, timeout=900, env=dict(os.environ, VERIF_REPO=repo))
+        lines = [l for l in p.stdout.splitlines() if l.startswith("{")]
+        res = json.loads(lines[-1]) if lines else {"error": (p.stderr or p.stdout)[-500:]}
+    except Exception as e:  # noqa
+        res = {"error": str(e)}
+    if "error" in res or "crashed" in str(res.get("note", "")):
+        return {"obligations": [], "undecided": [{"obligation": oid, "why": "native scope could not run: " + str(res.get("error", res.get("note")))[:300]}]}
+    ok = not res.get("reproduced")
+    o = ground_obligation(oid, ok, "" if ok else f"{res.get('target')}: {json.dumps(res.get('inputs'), default=repr)[:300]} -> {str(res.get('observed'))[:300]}",
+                          "replay/C10.py", kind="bounded", backend="native-replay")
+    o["bounded"] = True
+    o["bound"] = "zipfile stored/deflated, tarfile plain/gz/bz2/xz in pax/gnu/ustar format, own 7z writer copy/LZMA/LZMA2 x solid / blocks / folder per file; 14 member sets (0..11 members, directories, zero-length, hidden, unsupported, nested, corrupt, non-ASCII names)"
+    return {"obligations": [o]}
+
+
 def known_findings(kf, violations, repo, tier):
     """Recorded genuine defects (known_findings.json): each witness is replayed natively; a finding that still fails
     prints KNOWN-FINDING and covers exactly its own obligation id (every other refuted obligation stays a violation)."""
@@ -2259,7 +2287,7 @@ def known_findings(kf, violations, repo, tier):
 
 EXECUTOR = MemberExecutor
 EXECUTOR_KW = {}
-EXTRA = [table_check]
+EXTRA = [table_check, native_scope]
 TRUSTED = [
     "decode (copy = identity, LZMA / LZMA2 via liblzma) is uninterpreted: _apply_decoder is an assumed contract; its results are "
     "compared natively by replay/C10.py for copy / LZMA / LZMA2 folders",
